@@ -615,6 +615,32 @@ def dnf_simplify(A: Set[tuple]) -> Set[tuple]:
     return set(keep)
 
 
+
+def inline_tests(fn):
+    """a copy of the function in which locals with a single call-free definition are substituted into the branch tests (`flag = a or b; if flag:` reads like `if a or b:`)"""
+    import copy
+    from sa.util import local_assignments as _la
+    f2 = copy.deepcopy(fn)
+    for n in ast.walk(f2):
+        for ch in ast.iter_child_nodes(n):
+            ch._parent = n
+    defs = _la(f2)
+
+    class Sub(ast.NodeTransformer):
+        def visit_Name(self, n):
+            if isinstance(n.ctx, ast.Load) and len(defs.get(n.id, [])) == 1 and not any(isinstance(x, ast.Call) for x in ast.walk(defs[n.id][0])):
+                return copy.deepcopy(defs[n.id][0])
+            return n
+    for n in ast.walk(f2):
+        if isinstance(n, (ast.If, ast.While)):
+            n.test = Sub().visit(n.test)
+    ast.fix_missing_locations(f2)
+    for n in ast.walk(f2):
+        for ch in ast.iter_child_nodes(n):
+            ch._parent = n
+    return f2
+
+
 class Cond:
     """reach conditions of program points / string templates as DNF over the finite-domain options"""
 
@@ -757,8 +783,11 @@ class Cond:
                     continue
                 # a rejection that depends on a free-form option (--grid, --cutoff …) holds for some of its values only: it excludes nothing here
                 free_dep = False
-                p_ = getattr(st, '_parent', None)
-                while p_ is not None and p_ is not fi.fn:
+                if not hasattr(fi, '_inlined'):
+                    fi._inlined = inline_tests(fi.fn)
+                st_i = next((x for x in ast.walk(fi._inlined) if isinstance(x, ast.Expr) and getattr(x, 'lineno', None) == st.lineno and getattr(x, 'col_offset', None) == st.col_offset), st)
+                p_ = getattr(st_i, '_parent', None)
+                while p_ is not None and not isinstance(p_, ast.FunctionDef):
                     if isinstance(p_, (ast.If, ast.While)):
                         for x in ast.walk(p_.test):
                             if isinstance(x, ast.Attribute) and isinstance(x.value, ast.Name) and x.value.id in ARG_NAMES and x.attr not in self.flow.fin:
@@ -1194,16 +1223,39 @@ def check_none_sizes(ctx, rep):
     if not guards:
         raise AnalysisError('evolution.check_arguments not found')
 
-    def rejected(env) -> bool:
-        for g in guards:
-            e = flow.env(g.module, env, {}, {})
-            succ = specialised_reach(g.cfg, e)
-            live = reach_from(succ, [g.cfg.entry.id], g.by_id) | {g.cfg.entry.id}
-            for node in g.cfg.stmt_nodes():
-                st = node.stmt
-                if node.id in live and isinstance(st, ast.Expr) and isinstance(st.value, ast.Call) and isinstance(st.value.func, ast.Attribute) and st.value.func.attr == 'error':
-                    return True
-        return False
+    import copy
+    from sa.cfg import CFG as _CFG
+    from sa.util import local_assignments as _la
+
+    guard_cfgs = [(g, _CFG(inline_tests(g.fn))) for g in guards]
+
+    free_in_guards = sorted({x.attr for g in guards for x in ast.walk(g.fn) if isinstance(x, ast.Attribute) and isinstance(x.value, ast.Name) and x.value.id in ARG_NAMES
+                             and x.attr not in flow.fin})
+
+    fin_in_guards = sorted({x.attr for g in guards for x in ast.walk(g.fn) if isinstance(x, ast.Attribute) and isinstance(x.value, ast.Name) and x.value.id in ARG_NAMES
+                            and x.attr in flow.fin})
+
+    def rejected(env, o) -> bool:
+        """some parser.error(...) of check_arguments is reached with option o missing, whatever the *other* free-form options it tests are (each is tried as missing and as
+        given); tests the evaluator cannot decide are followed on both edges"""
+        others = [x for x in free_in_guards if x != o]
+        fin_open = [x for x in fin_in_guards if x not in env]
+        doms = [[None, 1]] * len(others) + [sorted(flow.fin[x].values, key=repr) for x in fin_open]
+        for combo in itertools.product(*doms):
+            e_opts = {**env, **dict(zip(others + fin_open, combo)), o: None}
+            hit = False
+            for g, cfg in guard_cfgs:
+                e = flow.env(g.module, e_opts, {}, {})
+                succ = specialised_reach(cfg, e)
+                by_id = {n_.id: n_ for n_ in cfg.nodes}
+                live = reach_from(succ, [cfg.entry.id], by_id) | {cfg.entry.id}
+                for node in cfg.stmt_nodes():
+                    st = node.stmt
+                    if node.id in live and isinstance(st, ast.Expr) and isinstance(st.value, ast.Call) and isinstance(st.value.func, ast.Attribute) and st.value.func.attr == 'error':
+                        hit = True
+            if not hit:
+                return False
+        return True
     n = 0
     for fi in col.all_infos():
         if col.is_factory(fi) is not None:
@@ -1212,16 +1264,16 @@ def check_none_sizes(ctx, rep):
             if not isinstance(d, ast.Dict) or enclosing_fn(d) is not fi.fn:
                 continue
             for k, v in zip(d.keys, d.values):
-                if not (isinstance(k, ast.Constant) and k.value == 'full' and isinstance(v, (ast.List, ast.Tuple))):
+                if not (isinstance(k, ast.Constant) and ((k.value == 'full' and isinstance(v, (ast.List, ast.Tuple))) or k.value == 'cutoff')):
                     continue
-                for el in v.elts:
+                for el in (v.elts if isinstance(v, (ast.List, ast.Tuple)) else [v]):
                     opts = [x.attr for x in ast.walk(el) if isinstance(x, ast.Attribute) and isinstance(x.value, ast.Name) and x.value.id in ARG_NAMES]
                     for o in opts:
                         if o in flow.fin or flow.free_default.get(o, UNKNOWN) is not None:
                             continue
                         n += 1
                         node = fi.stmt_node_of(d)
-                        key = f"{fi.module.name.replace('torchtree.', '')}.{fi.fn.name}::full=[arg.{o}]#{getattr(d, 'lineno', 0) - fi.fn.lineno}"
+                        key = f"{fi.module.name.replace('torchtree.', '')}.{fi.fn.name}::{'full=[arg.' + o + ']' if k.value == 'full' else k.value + '=arg.' + o}#{getattr(d, 'lineno', 0) - fi.fn.lineno}"
                         if node is None:
                             rep.undecided('C19.G', key, f"{fi.module.path}:{d.lineno}", 'statement of the literal not found in the CFG')
                             continue
@@ -1230,17 +1282,21 @@ def check_none_sizes(ctx, rep):
                         except TooBig:
                             rep.undecided('C19.G', key, f"{fi.module.path}:{d.lineno}", 'reach condition too large')
                             continue
+                        if not dnf:
+                            rep.undecided('C19.G', key, f"{fi.module.path}:{d.lineno}", 'the site is not reachable under any accepted option combination the analysis can represent')
+                            continue
                         bad = None
                         for cube in sorted(dnf, key=repr):
                             env = {**dict(cube), o: None}
                             env.pop(CMD, None)
-                            if not rejected(env):
+                            if not rejected(env, o):
                                 bad = cube
                                 break
                         envtxt = ', '.join(f"{k_}={v_!r}" for k_, v_ in (bad or ()))
                         rep.check('C19.G', key, bad is None, f"{fi.module.path}:{d.lineno}", {'option': o, 'reach_cubes': len(dnf)},
-                                  f"{fi.fn.name} writes `--{o}` into the size of a parameter (\"full\": [arg.{o}]); the option is optional (default None) and under [{envtxt}] "
-                                  f"check_arguments does not reject a missing --{o}: the emitted file contains \"full\": [null] and torchtree stops in torch.full when loading it")
+                                  f"{fi.fn.name} writes `--{o}` into a value the reader needs as a number (\"{k.value}\": {norm_text(v)[:30]}); the option is optional (default None) and "
+                                  f"under [{envtxt}] check_arguments lets a missing --{o} through (for some value of the other options it tests): the emitted file contains null "
+                                  f"there and torchtree stops in torch.full / torch.linspace when loading it")
     rep.analysed['C19.G'] = {'sites': n}
     if n < 3:
         rep.incomplete('C19.G', '*', '', f"only {n} option-valued sizes found")
@@ -1417,3 +1473,135 @@ def check_reference_types(ctx, rep):
     rep.analysed['C19.D'] = {'reference_definition_pairs': n}
     if n < 5:
         rep.incomplete('C19.D', '*', '', f"only {n} reference / definition pairs with attribute reads found")
+
+
+# ---------------------------------------------------------------------------
+# C19.O — side channels on the option object are written before they are read
+# ---------------------------------------------------------------------------
+def check_side_channels(ctx, rep):
+    """The builders pass computed values to each other through private attributes of the argparse namespace (`arg._coalescent_init = …` in one function, read with a silent
+    fallback — `… if "_coalescent_init" in arg else 100.0` — in another).  In every function that (transitively) calls both a writer and a reader of such an attribute, a call
+    that reaches a writer dominates every call that reaches a reader; otherwise the reader silently takes its fallback and the requested value is dropped.  A function that
+    initialises the attribute itself before reading it (`if not hasattr(arg, '_x'): arg._x = …`) is not a reader."""
+    from sa.cfg import CFG
+    table = {}
+    for mname, m in ctx.prog.modules.items():
+        if mname.startswith('torchtree.cli'):
+            for fname, f in m.functions.items():
+                table.setdefault(fname, (m, f))
+    writes: Dict[str, Set[str]] = {}
+    reads: Dict[str, Set[str]] = {}
+    for fname, (m, f) in table.items():
+        w, r = set(), set()
+        for x in ast.walk(f):
+            if isinstance(x, ast.Attribute) and isinstance(x.value, ast.Name) and x.value.id in ARG_NAMES and x.attr.startswith('_') and not x.attr.startswith('__'):
+                (w if isinstance(x.ctx, ast.Store) else r).add(x.attr)
+            if isinstance(x, ast.Compare) and isinstance(x.left, ast.Constant) and isinstance(x.left.value, str) and x.left.value.startswith('_') and len(x.ops) == 1 \
+                    and isinstance(x.ops[0], (ast.In, ast.NotIn)) and isinstance(x.comparators[0], ast.Name) and x.comparators[0].id in ARG_NAMES:
+                r.add(x.left.value)
+        for a in w:
+            writes.setdefault(a, set()).add(fname)
+        for a in r - w:          # a function that also writes the attribute initialises it lazily
+            reads.setdefault(a, set()).add(fname)
+
+    def callees(f):
+        out = set()
+        for c in ast.walk(f):
+            if isinstance(c, ast.Call):
+                nm = c.func.id if isinstance(c.func, ast.Name) else (c.func.attr if isinstance(c.func, ast.Attribute) else None)
+                if nm in table:
+                    out.add(nm)
+        return out
+    closure: Dict[str, Set[str]] = {}
+
+    def reach(fname, seen=None):
+        if fname in closure:
+            return closure[fname]
+        seen = seen or set()
+        out = {fname}
+        for g in callees(table[fname][1]):
+            if g not in seen:
+                out |= reach(g, seen | {fname})
+        closure[fname] = out
+        return out
+    n = 0
+    for attr in sorted(set(writes) & set(reads)):
+        W, R = writes[attr], reads[attr]
+        for fname, (m, f) in sorted(table.items()):
+            calls = [(st, c) for st in ast.walk(f) if isinstance(st, ast.stmt) and not isinstance(st, (ast.If, ast.For, ast.While, ast.With, ast.Try, ast.FunctionDef))
+                     for c in ast.walk(st) if isinstance(c, ast.Call) and ((isinstance(c.func, ast.Name) and c.func.id in table) or (isinstance(c.func, ast.Attribute) and c.func.attr in table))]
+            if not calls:
+                continue
+            wr = [(st, c) for st, c in calls if reach(c.func.id if isinstance(c.func, ast.Name) else c.func.attr) & W]
+            rd = [(st, c) for st, c in calls if reach(c.func.id if isinstance(c.func, ast.Name) else c.func.attr) & R and not (reach(c.func.id if isinstance(c.func, ast.Name) else c.func.attr) & W)]
+            if not wr or not rd:
+                continue
+            cfg = CFG(f)
+            for st, c in rd:
+                n += 1
+                try:
+                    rn = cfg.node_of(st)
+                    wn = [cfg.node_of(s2) for s2, _ in wr]
+                except KeyError:
+                    continue
+                ok = any(cfg.dominates(w_, rn) and w_ is not rn for w_ in wn)
+                # within one statement Python evaluates operands left to right: a writer call written before the reader call runs first
+                if not ok:
+                    ok = any(s2 is st and (c2.lineno, c2.col_offset) < (c.lineno, c.col_offset) and not any(y is c2 for y in ast.walk(c)) for s2, c2 in wr)
+                rname = c.func.id if isinstance(c.func, ast.Name) else c.func.attr
+                rep.check('C19.O', f"{m.name.replace('torchtree.', '')}.{fname}::arg.{attr}::written-before-{rname}", ok, f"{m.path}:{st.lineno}",
+                          {'writers': sorted(W), 'readers': sorted(R)},
+                          f"{fname} calls {rname}() (which reads arg.{attr} with a silent fallback, in {sorted(reach(rname) & R)}) on a path where no call that sets it "
+                          f"({sorted(W)}) has run yet: the value requested on the command line is dropped and the default is emitted instead")
+    rep.analysed['C19.O'] = {'channels': sorted(set(writes) & set(reads)), 'ordered_call_pairs': n}
+    if n < 1:
+        rep.incomplete('C19.O', '*', '', 'no function calling both a writer and a reader of a private option attribute found')
+
+
+# ---------------------------------------------------------------------------
+# C19.Z — an option for which 0 and "not given" mean different things is never tested by truthiness
+# ---------------------------------------------------------------------------
+def check_zero_versus_missing(ctx, rep):
+    """Some options carry two distinct "falsy" meanings: `--dates 0` (contemporaneous taxa) versus no `--dates` (None: dates are read from the taxon names).  Where the builders
+    themselves tell the two apart (the option is compared with 0 / '' / False somewhere *and* tested against None somewhere), a bare truthiness test (`if arg.x`, `not arg.x`)
+    lumps them together and takes the branch meant for one of them under the other."""
+    falsy_cmp: Dict[str, list] = {}
+    none_cmp: Dict[str, list] = {}
+    bare: Dict[str, list] = {}
+    for mname, m in sorted(ctx.prog.modules.items()):
+        if not mname.startswith('torchtree.cli'):
+            continue
+        for x in ast.walk(m.tree):
+            if isinstance(x, ast.Compare) and len(x.ops) == 1 and isinstance(x.left, ast.Attribute) and isinstance(x.left.value, ast.Name) and x.left.value.id in ARG_NAMES:
+                c = x.comparators[0]
+                if isinstance(c, ast.Constant):
+                    if c.value is None and isinstance(x.ops[0], (ast.Is, ast.IsNot, ast.Eq, ast.NotEq)):
+                        none_cmp.setdefault(x.left.attr, []).append((m, x))
+                    elif c.value in (0, '', False) and not isinstance(c.value, type(None)) and isinstance(x.ops[0], (ast.Eq, ast.NotEq, ast.Is, ast.IsNot)):
+                        falsy_cmp.setdefault(x.left.attr, []).append((m, x))
+            # bare truthiness: the option itself is the test of an if / while / conditional expression / operand of not / and / or
+            if isinstance(x, ast.Attribute) and isinstance(x.value, ast.Name) and x.value.id in ARG_NAMES and isinstance(x.ctx, ast.Load):
+                par = getattr(x, '_parent', None)
+                is_test = (isinstance(par, (ast.If, ast.While, ast.IfExp)) and par.test is x) or (isinstance(par, ast.UnaryOp) and isinstance(par.op, ast.Not)) or \
+                    (isinstance(par, ast.BoolOp) and any(v is x for v in par.values) and _bool_context(par))
+                if is_test:
+                    bare.setdefault(x.attr, []).append((m, x))
+    both = sorted(set(falsy_cmp) & set(none_cmp))
+    for o in both:
+        sites = bare.get(o, [])
+        if not sites:
+            rep.ok('C19.Z', f"--{o}::0-and-missing-never-lumped-together", f"{falsy_cmp[o][0][0].path}:{falsy_cmp[o][0][1].lineno}",
+                   {'compared_with_a_falsy_constant': len(falsy_cmp[o]), 'tested_against_None': len(none_cmp[o])})
+        for k, (m, x) in enumerate(sites):
+            rep.bad('C19.Z', f"--{o}::truthiness-test#{k}", f"{m.path}:{x.lineno}", {'test': norm_text(getattr(x, '_parent', x))[:60]},
+                    f"`{norm_text(getattr(x, '_parent', x))[:60]}` tests arg.{o} by truthiness, but elsewhere the builders distinguish arg.{o} == {falsy_cmp[o][0][1].comparators[0].value!r} "
+                    f"from arg.{o} is None (line {none_cmp[o][0][1].lineno}): the two cases are lumped together here and the branch written for one of them is taken for the other")
+    if len(both) < 1:
+        rep.incomplete('C19.Z', '*', '', 'no option that is both compared with a falsy constant and tested against None')
+
+
+def _bool_context(node) -> bool:
+    p = getattr(node, '_parent', None)
+    while isinstance(p, (ast.BoolOp, ast.UnaryOp)):
+        node, p = p, getattr(p, '_parent', None)
+    return isinstance(p, (ast.If, ast.While, ast.IfExp)) and p.test is node
